@@ -26,6 +26,10 @@ TSr == /\ IsEvent("sr")
                /\ Ev.ser_rt /\ Ev.dup_rt /\ Ev.pp_rt
                /\ Ev.bfam = Ev.fam /\ Ev.baddr = Ev.addr /\ Ev.bport = Ev.port
           ELSE Ev.n >= -1 /\ (Ev.n >= 1 => (Ev.ser_rt /\ Ev.dup_rt))
+       \* a copy (deserialised, duplicated, duplicated again as a list member) is as good as the original: it prints the same
+       /\ (Has("pp") /\ Has("pp_ser")) => Ev.pp_ser = Ev.pp
+       /\ (Has("pp") /\ Has("pp_dup")) => Ev.pp_dup = Ev.pp
+       /\ (Has("pp") /\ Has("pp_dup2")) => (Ev.pp_dup2 = Ev.pp /\ Ev.dup2_rt)
 TSd == IsEvent("sd") /\ (Ev.null \/ ~Has("same") \/ Ev.same)        \* what the decoder accepts serialises back to the same bytes
 \* JSON key finder: a pointer inside [buf, end]; on a valid object, the value of the first top-level member whose decoded
 \* name equals the key (names written with \u escapes never match), else the end
